@@ -604,6 +604,21 @@ func loopRule(p *load.Program, s *oblig.Set) {
 		s.Bad("P4b", keyb, pos, "the open-block / open-quote / open-bracket balance is computed on a modified copy of the line ("+badCount+"): what is counted is not what is parsed")
 	}
 	// P4: (known finding) the boundary heuristic is lexically blind
+	// the finding is recorded for the characters the reference tree counts; a
+	// further character counted the same blind way is a further way of
+	// swallowing a script, reported on its own
+	recorded := map[string]bool{`"{"`: true, `"}"`: true, `"["`: true, `"]"`: true, `"\""`: true, `"\\\""`: true}
+	extra := map[string]bool{}
+	for _, r := range all {
+		for _, c := range r.counts {
+			if i := strings.Index(c, " / "); i >= 0 && !recorded[c[i+3:]] {
+				extra[c[i+3:]] = true
+			}
+		}
+	}
+	for _, sub := range load.SortedKeys(extra) {
+		s.Bad("P4", "node.Loop / statement boundaries ignore lexical context: occurrences of "+sub+" are counted too", pos, "the driver also counts the raw occurrences of "+sub+" in each line to decide where a statement ends; inside a string literal or a comment they are counted as well, so a line such as write(\"1) done\") keeps the driver waiting and the rest of the script or session is swallowed, while -eval runs the same statement")
+	}
 	if ncount > 0 {
 		s.Bad("P4", "node.Loop / statement boundaries ignore lexical context", pos, "statement boundaries are found by counting the raw characters { } [ ] \" of each line; braces, brackets and quotes inside string literals and comments are counted too, so such a line swallows the rest of the script")
 	} else {
